@@ -11,6 +11,15 @@ pointers, pointer-to-pointer members and pointer arrays holding the addresses at
 (0, 1, 2**n-1, 2**n-2, 2**(n-1) and neighbours, byte patterns; each at every position) must read as those unsigned integers and dump back
 unchanged through every writing path (structure dumps()/write(), pointer.dumps(), PointerType.dumps(int), array dumps(),
 a structure constructed from plain integers), for every width and endianness.
+
+Reconfiguration histories (helpers in harness/t5_c16.py): on ONE instance the pointer type is reassigned (`cs.pointer = cs.uintN`,
+all seven widths, every ordered pair of widths in the thorough tier) between declarations; before and after each switch pointers
+are made (`T *x`, `T *x[2]`, `T **x` members, pointer typedefs, `cs._make_pointer`) to targets that already had a pointer made
+under an earlier width and to targets that never had one.  Every structure is checked, while the width it was declared under is
+in effect, with the C16 predicates: slots of exactly the configured width (offsets, size, len(struct) == consumed == dumped,
+packed and aligned), values are the unsigned integers stored, the fields behind the pointers read what was stored, dereference ==
+parse of the target at that offset (target type from an instance configured with that width from the start), stream untouched,
+stable, null error, arithmetic, dumps of the parsed and of a constructed object give the bytes back; both readers.
 """
 from __future__ import annotations
 
@@ -18,6 +27,7 @@ import io
 import itertools
 
 from .. import common, defs, impl, refimpl, s2_ptr
+from .. import t5_c16 as t5
 from ..common import A, Case, Result, mkrng, parse_sexp, run_driver, sx
 
 PTRS = dict(s2_ptr.ALL_PTRS)   # uint8 .. uint128, packable and not
@@ -42,7 +52,9 @@ def run(env) -> Result:
                 "are in arrays (4 shapes, every element dereferenced); addresses: null, random in range, last byte, beyond the stream, and the "
                 "edges of the n-bit address space (0, 1, 2**n-1, 2**n-2, 2**(n-1)+-1, byte patterns); checks: field width, unsigned value, "
                 "dereference == parse of the target at that offset, stream position untouched, stability, null/streamless errors, arithmetic, "
-                "dump back unchanged through 10 writing paths. distinct = (config, target, address, data); non-trivial = non-null address")
+                "dump back unchanged through 10 writing paths. Histories on one instance: cs.pointer reassigned (all widths) between declarations, "
+                "pointers to targets that had / never had a pointer under an earlier width, every structure checked under the width it was "
+                "declared with (layout packed and aligned, values, fields behind the pointers, dereference, dumps, len == consumed == dumped). distinct = (config, target, address, data); non-trivial = non-null address")
     dc = impl.dc()
     rnd = mkrng(env["seed"], "c16")
     tier = env["tier"]
@@ -328,6 +340,14 @@ def run(env) -> Result:
             ctx.check(o.p, a_p, "p")
             for j, x in enumerate(o.arr):
                 ctx.check(x, a_arr[j], f"arr[{j}]")
+    # ---- reconfiguration histories: cs.pointer is reassigned between declarations on one instance (own PRNG stream, so that the
+    # probes above stay what they were)
+    rnd5 = mkrng(env["seed"], "c16-reconfig")
+    for widths in t5.widths_histories(rnd5, tier):
+        for endian in "<>":
+            res.feat("reconfig:history")
+            res.feat(f"reconfig:history-phases:{min(len(widths), 8)}")
+            t5.run_history(dc, widths, endian, rnd5, tier, res, viol)
     # pointer inside a fixed-size union (finding F11): the dereference must read the outer stream
     for pname, endian in itertools.product(("uint16", "uint32"), "<>"):
         cs = dc.cstruct(endian=endian, pointer=pname)
